@@ -898,58 +898,53 @@ func chartDevs() []Dev {
 // quick tier: per field the shapes that survive loading and reach dependency
 // processing, value computation, rendering or lint.
 var chartPairsQuick = map[string]string{
-	"Chart.yaml#apiVersion":          "missing v1",
-	"Chart.yaml#name":                "ctrl subname",
-	"Chart.yaml#version":             "prerelease",
-	"Chart.yaml#type":                "missing library",
-	"Chart.yaml#kubeVersion":         "unsat",
-	"Chart.yaml#keywords":            "null",
-	"Chart.yaml#maintainers":         "null item-fields-null",
-	"Chart.yaml#annotations":         "null",
+	"Chart.yaml#apiVersion":          "v1",
+	"Chart.yaml#name":                "ctrl",
+	"Chart.yaml#type":                "library",
+	"Chart.yaml#maintainers":         "item-fields-null",
 	"Chart.yaml#dependencies":        "toplevel-null",
-	"Chart.yaml#tail":                "dep-second-missing-chart dep-second-same-name unknown-field",
+	"Chart.yaml#tail":                "dep-second-same-name",
 	"Chart.yaml#dep.name":            "empty",
-	"Chart.yaml#dep.version":         "missing badrange star unsat",
+	"Chart.yaml#dep.version":         "missing",
 	"Chart.yaml#dep.repository":      "missing",
-	"Chart.yaml#dep.condition":       "str empty missing trailing-dot into-scalar into-list nonbool",
-	"Chart.yaml#dep.tags":            "null listnull missing-tag missing",
-	"Chart.yaml#dep.alias":           "alias alias-same alias-parent alias-global",
+	"Chart.yaml#dep.condition":       "missing into-scalar nonbool",
+	"Chart.yaml#dep.tags":            "missing-tag missing",
+	"Chart.yaml#dep.alias":           "alias alias-parent alias-global",
 	"Chart.yaml#dep.enabled":         "enabled-false",
-	"Chart.yaml#dep.import-values":   "missing null item-null item-list child-int parent-missing dots child-scalar-path parent-scalar-path parent-under-scalar str-missing-export many",
-	"values.yaml#sub":                "null missing enabled-null enabled-str enabled-false data-scalar data-null global-scalar exports-scalar exports-null",
-	"values.yaml#tags":               "null scalar t1-str t1-false missing",
-	"values.yaml#global":             "null scalar g-map missing",
-	"values.yaml#x":                  "null map missing",
-	"values.yaml#tplstr":             "unclosed self nil-deref null",
-	"values.yaml#imported":           "*",
-	"values.yaml#tail":               "exports Values-key",
-	"values.yaml:":                   "empty null list multi-doc",
-	"values.schema.json:":            "empty false ref-self absent",
-	"values.schema.json#x":           "type-null false not-self",
-	"values.schema.json#sub":         "*",
-	"values.schema.json#required":    "null missingprop",
-	"templates/cm.yaml#x":            "unclosed nil-deref toyaml-root include-loop template-loop tpl-loop tpl-nil",
-	"templates/cm.yaml#t":            "tpl-missing tpl-of-map",
-	"templates/cm.yaml#l":            "lines-dir",
-	"templates/cm.yaml#head":         "kind-null kind-list leading-doc-sep empty",
-	"templates/cm.yaml#metadata":     "null missing",
-	"templates/cm.yaml#annotations":  "null hook-null hook-unknown delete-policy-bad",
+	"Chart.yaml#dep.import-values":   "missing null child-int child-scalar-path parent-under-scalar many",
+	"values.yaml#sub":                "null missing enabled-null enabled-false data-scalar exports-scalar",
+	"values.yaml#tags":               "null scalar t1-false",
+	"values.yaml#global":             "null scalar g-map",
+	"values.yaml#x":                  "null map",
+	"values.yaml#tplstr":             "unclosed self nil-deref",
+	"values.yaml#imported":           "scalar missing",
+	"values.yaml#tail":               "exports",
+	"values.yaml:":                   "empty null",
+	"values.schema.json:":            "false ref-self",
+	"values.schema.json#x":           "type-null not-self",
+	"values.schema.json#sub":         "sub-string",
+	"values.schema.json#required":    "missingprop",
+	"templates/cm.yaml#x":            "unclosed nil-deref include-loop tpl-loop",
+	"templates/cm.yaml#t":            "tpl-of-map",
+	"templates/cm.yaml#head":         "kind-null kind-list",
+	"templates/cm.yaml#metadata":     "null",
+	"templates/cm.yaml#annotations":  "hook-unknown",
 	"templates/cm.yaml#data":         "doc-sep-inside",
-	"templates/cm.yaml#extra":        "second-doc-null second-doc-nometadata second-doc-hook",
-	"templates/cm.yaml:":             "empty only-define redefine-helper absent",
-	"templates/_helpers.tpl:":        "empty self-include define-fails define-tpl-self absent",
-	"files/data.txt:":                "empty only-newline absent",
-	"charts/sub/Chart.yaml#name":     "mismatch missing global",
-	"charts/sub/Chart.yaml#version":  "mismatch missing",
-	"charts/sub/Chart.yaml#type":     "*",
-	"charts/sub/Chart.yaml#tail":     "*",
-	"charts/sub/Chart.yaml:":         "null absent",
-	"charts/sub/values.yaml#enabled": "str null false missing",
-	"charts/sub/values.yaml#data":    "scalar null missing",
-	"charts/sub/values.yaml#exports": "null scalar exp-scalar exp-null missing",
-	"charts/sub/values.yaml#global":  "scalar null g-map",
-	"charts/sub/values.yaml:":        "empty null absent",
-	"@uservalues:":                   "null sub-int sub-null sub-enabled-str sub-enabled-false sub-global-int sub-exports-int global-int global-null global-g-map tags-null tags-t1-false imported-int tplstr-self",
+	"templates/cm.yaml#extra":        "second-doc-null second-doc-hook",
+	"templates/cm.yaml:":             "empty",
+	"templates/_helpers.tpl:":        "self-include define-tpl-self",
+	"files/data.txt:":                "empty absent",
+	"charts/sub/Chart.yaml#name":     "mismatch global",
+	"charts/sub/Chart.yaml#version":  "mismatch",
+	"charts/sub/Chart.yaml#type":     "library",
+	"charts/sub/Chart.yaml#tail":     "own-deps-importvalues-bad",
+	"charts/sub/Chart.yaml:":         "absent",
+	"charts/sub/values.yaml#enabled": "null false",
+	"charts/sub/values.yaml#data":    "scalar null",
+	"charts/sub/values.yaml#exports": "null exp-scalar",
+	"charts/sub/values.yaml#global":  "scalar g-map",
+	"charts/sub/values.yaml:":        "null absent",
+	"@uservalues:":                   "null sub-int sub-enabled-false sub-global-int global-int tags-t1-false tplstr-self",
 }
 
 // chartPairs selects the (larger) set of deviations combined pairwise in the
@@ -1016,12 +1011,12 @@ var chartPairs = map[string]string{
 // computation (parent values x subchart values x user values x dependency
 // declaration).
 var chartTriples = map[string]string{
-	"Chart.yaml#dep.condition":       "str empty long missing dots trailing-dot into-scalar into-list nonbool table",
-	"Chart.yaml#dep.tags":            "null listnull emptylist missing-tag missing",
+	"Chart.yaml#dep.condition":       "str empty missing dots trailing-dot into-scalar nonbool table",
+	"Chart.yaml#dep.tags":            "null listnull missing-tag missing",
 	"Chart.yaml#dep.alias":           "alias alias-parent alias-global",
-	"Chart.yaml#dep.import-values":   "missing null emptylist item-null item-int item-list child-int parent-missing dots child-scalar-path child-into-scalar parent-scalar-path parent-under-scalar parent-is-sub str-missing-export str-dot empty-strings many",
+	"Chart.yaml#dep.import-values":   "missing null emptylist item-null item-list child-int dots child-scalar-path child-into-scalar parent-scalar-path parent-under-scalar parent-is-sub str-missing-export empty-strings many",
 	"Chart.yaml#tail":                "dep-second-same-name",
-	"values.yaml#sub":                "null int missing enabled-null enabled-str enabled-int enabled-map enabled-false data-scalar data-null data-list global-scalar exports-scalar exports-exp-scalar exports-null",
+	"values.yaml#sub":                "null int missing enabled-null enabled-str enabled-map enabled-false data-scalar data-null global-scalar exports-scalar exports-exp-scalar exports-null",
 	"values.yaml#tags":               "null scalar t1-str t1-false missing",
 	"values.yaml#global":             "null scalar g-map missing",
 	"values.yaml#imported":           "*",
@@ -1029,10 +1024,10 @@ var chartTriples = map[string]string{
 	"charts/sub/Chart.yaml#type":     "library",
 	"charts/sub/values.yaml#enabled": "str null false missing",
 	"charts/sub/values.yaml#data":    "scalar null missing",
-	"charts/sub/values.yaml#exports": "null scalar list exp-scalar exp-null exp-list missing",
+	"charts/sub/values.yaml#exports": "null scalar exp-scalar exp-null missing",
 	"charts/sub/values.yaml#global":  "scalar null g-map",
 	"charts/sub/values.yaml:":        "null absent",
-	"@uservalues:":                   "null sub-int sub-null sub-enabled-str sub-enabled-false sub-global-int sub-data-int sub-exports-int global-int global-null global-g-map tags-int tags-null tags-t1-str tags-t1-false imported-int imported-null x-null sub-enabled-null",
+	"@uservalues:":                   "null sub-int sub-null sub-enabled-str sub-enabled-false sub-global-int sub-data-int sub-exports-int global-int global-null global-g-map tags-null tags-t1-str tags-t1-false imported-int",
 }
 
 // ---------------------------------------------------------------------------
